@@ -223,6 +223,12 @@ def cookie_cases(rng):
         if text.strip(' \t;') == '' and free:
             continue
         out.append((rule, pair + ('; ' + text.lstrip(' \t') if text.strip() else '')))
+    # RFC 6265 section 5.2 steps 2-4: the name-value pair ends at the first ";", and leading or trailing WSP (SP / HTAB) of the
+    # name and of the value are removed
+    rest = ''.join('; ' + render_directive(d) for d in free)
+    name, value = pair.split('=')
+    out.append(('pair-ows', pair + rng.choice([' ', '\t', ' \t', '  ']) + (rest or ';')))
+    out.append(('pair-ows', '%s%s=%s%s%s' % (name, rng.choice(['', ' ', '\t']), rng.choice([' ', '\t', '']), value, rest)))
     return h.HttpHeaderFieldValueSetCookie, canon, out
 
 
